@@ -174,19 +174,40 @@ def run(rep: Report, prog: Program, tier: str) -> None:
                 else:
                     rep.fail("R5.1", f"writer|{fn.qual}|{n.attr}", f"{fn.qual} re-binds `{n.attr}`", where=fn.where(n), function=fn.qual)
     norm_ok = {"_strategies": False, "_default_strategy": False}
+
+    def n_norm(e: ast.AST) -> int:
+        return len([c for c in ast.walk(e) if isinstance(c, ast.Call) and isinstance(c.func, ast.Name) and c.func.id == "_normalize_strategy"])
+
+    def normalises(value: ast.expr, fn, depth: int = 0) -> bool:
+        """every strategy that ends up in `value` went through _normalize_strategy exactly once: directly, through a
+        table filled item by item, or through a helper whose every returned value is built that way"""
+        if n_norm(value) == 1:
+            return True
+        if isinstance(value, ast.Name):
+            # a table filled item by item in a loop: every item stored must be a normalised strategy
+            loc = value.id
+            fills = [s2 for s2 in prog._own_nodes(fn.node) if isinstance(s2, ast.Assign) and len(s2.targets) == 1 and isinstance(s2.targets[0], ast.Subscript) and isinstance(s2.targets[0].value, ast.Name) and s2.targets[0].value.id == loc]
+            inits = [s2 for s2 in prog._own_nodes(fn.node) if isinstance(s2, (ast.Assign, ast.AnnAssign)) and isinstance((s2.targets[0] if isinstance(s2, ast.Assign) else s2.target), ast.Name) and (s2.targets[0] if isinstance(s2, ast.Assign) else s2.target).id == loc]
+            empty = len(inits) == 1 and inits[0].value is not None and ((isinstance(inits[0].value, ast.Dict) and not inits[0].value.keys) or (isinstance(inits[0].value, ast.Call) and isinstance(inits[0].value.func, ast.Name) and inits[0].value.func.id == "dict" and not inits[0].value.args))
+            if bool(fills) and empty and all(n_norm(s2.value) == 1 for s2 in fills):
+                return True
+            if len(inits) == 1 and not fills and inits[0].value is not None and not empty:
+                return normalises(inits[0].value, fn, depth)  # a local bound once to the normalised value
+            return False
+        if isinstance(value, ast.Call) and depth < 3:
+            tg = prog.resolve_call(value, fn)
+            if len(tg) == 1 and tg[0].kind == "repo" and tg[0].func is not None and tg[0].func.qual != "redress.strategies:_normalize_strategy":
+                g = tg[0].func
+                rets = [r for r in prog._own_nodes(g.node) if isinstance(r, ast.Return)]
+                vals = [r.value for r in rets if r.value is not None and not (isinstance(r.value, ast.Constant) and r.value.value is None)]
+                return bool(vals) and all(normalises(v, g, depth + 1) for v in vals)
+        return False
+
     for n in prog._own_nodes(init.node):
         if isinstance(n, (ast.Assign, ast.AnnAssign)):
             tgt = n.target if isinstance(n, ast.AnnAssign) else n.targets[0]
             if isinstance(tgt, ast.Attribute) and tgt.attr in norm_ok and n.value is not None:
-                calls = [c for c in ast.walk(n.value) if isinstance(c, ast.Call) and isinstance(c.func, ast.Name) and c.func.id == "_normalize_strategy"]
-                norm_ok[tgt.attr] = len(calls) == 1
-                if not calls and isinstance(n.value, ast.Name):
-                    # a table filled item by item in a loop: every item stored must be a normalised strategy
-                    loc = n.value.id
-                    fills = [s2 for s2 in prog._own_nodes(init.node) if isinstance(s2, ast.Assign) and len(s2.targets) == 1 and isinstance(s2.targets[0], ast.Subscript) and isinstance(s2.targets[0].value, ast.Name) and s2.targets[0].value.id == loc]
-                    inits = [s2 for s2 in prog._own_nodes(init.node) if isinstance(s2, (ast.Assign, ast.AnnAssign)) and isinstance((s2.targets[0] if isinstance(s2, ast.Assign) else s2.target), ast.Name) and (s2.targets[0] if isinstance(s2, ast.Assign) else s2.target).id == loc]
-                    empty = len(inits) == 1 and inits[0].value is not None and ((isinstance(inits[0].value, ast.Dict) and not inits[0].value.keys) or (isinstance(inits[0].value, ast.Call) and isinstance(inits[0].value.func, ast.Name) and inits[0].value.func.id == "dict" and not inits[0].value.args))
-                    norm_ok[tgt.attr] = bool(fills) and empty and all(len([c for c in ast.walk(s2.value) if isinstance(c, ast.Call) and isinstance(c.func, ast.Name) and c.func.id == "_normalize_strategy"]) == 1 for s2 in fills)
+                norm_ok[tgt.attr] = normalises(n.value, init)
     for k, v in norm_ok.items():
         rep.instance("R5.1", f"normalised|{k}")
         if v:
